@@ -67,7 +67,7 @@ def generate_changing_data(
         )
 
     p = len(means[0])
-    x = multivariate_normal.rvs(np.zeros(p), np.eye(p), n, random_state)
+    x = multivariate_normal.rvs(np.zeros(p), np.eye(p), n, random_state).reshape(n, p)
     changepoints = [0] + changepoints + [n]
     for prev_cpt, next_cpt, mean, variance in zip(
         changepoints[:-1], changepoints[1:], means, variances
@@ -133,7 +133,7 @@ def generate_anomalous_data(
         raise ValueError("Anomalies must be within the range of the data.")
 
     p = len(means[0])
-    x = multivariate_normal.rvs(np.zeros(p), np.eye(p), n, random_state)
+    x = multivariate_normal.rvs(np.zeros(p), np.eye(p), n, random_state).reshape(n, p)
     for anomaly, mean, variance in zip(anomalies, means, variances):
         start, end = anomaly
         x[start:end] = mean + np.sqrt(variance) * x[start:end]
